@@ -6,8 +6,10 @@
                   + for every ACTIVE object p, (occurrences of o among p's children) x (enabled features of p listing g
                     in requires_children).
    excess T s o g = ref_count - need.   "Consistent" = excess >= 0 everywhere and a disabled feature has ref_count <= 0.
-   Main result: a complete call of disable (successful or refused, with all its cascades) never lowers the excess
-   of any (object, feature); decr_ref_count lowers it by at most one, at its target. *)
+   Main result: a complete call of disable (successful or refused, with all its cascades) on a feature whose ref_count
+   is not exactly 1 never lowers the excess of any (object, feature); decr_ref_count lowers it by at most one, at its
+   target.  (disable() refuses ref_count > 1 only: called on a feature with exactly one reference it switches the
+   feature off under its dependent -- finding disable-with-one-dependent.) *)
 From Coq Require Import ZArith List Bool Arith Lia.
 From CV Require Import C13.DepsModel C13.InvModel C13.DepsProofs C13.ModuleProofs.
 Import ListNotations.
@@ -358,7 +360,7 @@ Section Protected.
   Proof.
     induction n as [|n IH]; intros o' h s r s' H N; cbn [disable] in H; [discriminate|].
     destruct (negb (fs_enabled (get_fs s o' h))); [inversion H; subst; apply keeps_refl|].
-    destruct (0 <? fs_rc (get_fs s o' h)); [inversion H; subst; apply keeps_refl|].
+    destruct (1 <? fs_rc (get_fs s o' h)); [inversion H; subst; apply keeps_refl|].
     destruct (loop_all _ (f_self (feat T (cls_of s o') h)) s) as [s1|] eqn:E1; [|discriminate].
     assert (K1 : keeps s s1).
     { revert E1. apply keeps_loop_all. intros g s0 r0 s0' H0. eapply keeps_decr_with; eassumption. }
@@ -464,7 +466,7 @@ Section Height.
   Proof.
     induction n as [|n IH]; intros c h s r s' H; cbn [disable] in H; [discriminate|].
     destruct (negb (fs_enabled (get_fs s c h))); [inversion H; subst; apply below_refl|].
-    destruct (0 <? fs_rc (get_fs s c h)); [inversion H; subst; apply below_refl|].
+    destruct (1 <? fs_rc (get_fs s c h)); [inversion H; subst; apply below_refl|].
     destruct (loop_all _ (f_self (feat T (cls_of s c) h)) s) as [s1|] eqn:E1; [|discriminate].
     assert (K1 : below (S (ht c)) s s1).
     { revert E1. apply below_loop_all. intros g a r0 b H0. eapply below_decr_with; eassumption. }
@@ -500,8 +502,10 @@ Section Monotone.
   Notation exc := (excess T).
 
   Definition dshape (D : dfun) : Prop := forall o f s r s', D o f s = Some (r, s') -> same_shape s s'.
+  (* side condition of the code as it is: disable() refuses ref_count > 1 only, so the call must not be made on a
+     feature that holds exactly one reference (the automatic disable of decr_ref_count is made at ref_count 0) *)
   Definition dmono (D : dfun) : Prop :=
-    forall o f s r s', D o f s = Some (r, s') -> shaped s -> forall o' g, exc s o' g <= exc s' o' g.
+    forall o f s r s', D o f s = Some (r, s') -> shaped s -> rc s o f <> 1 -> forall o' g, exc s o' g <= exc s' o' g.
 
   Lemma disable_dshape n : dshape (disable T n).
   Proof.
@@ -529,13 +533,19 @@ Section Monotone.
       forall o' g, exc s o' g - (if (o' =? o)%nat && (g =? h)%nat then 1 else 0) <= exc s' o' g.
     Proof.
       intros H S o' g. unfold decr_with in H.
-      destruct (fs_rc (get_fs s o h) <=? 0); [inversion H; subst; destruct (_ && _); lia|].
+      destruct (fs_rc (get_fs s o h) <=? 0) eqn:Epos; [inversion H; subst; destruct (_ && _); lia|].
       assert (E1 : exc s o' g - (if (o' =? o)%nat && (g =? h)%nat then 1 else 0) <= exc (set_fs s o h fs_decr) o' g).
       { rewrite excess_decr. destruct ((o' =? o)%nat && (g =? h)%nat); destruct (h <? nf s o)%nat; cbn [andb]; lia. }
-      destruct ((fs_rc (get_fs s o h) - 1 =? 0) && is_dynamic (feat T (cls_of s o) h))%bool.
+      destruct ((fs_rc (get_fs s o h) - 1 =? 0) && is_dynamic (feat T (cls_of s o) h))%bool eqn:Ez.
       - destruct (D o h (set_fs s o h fs_decr)) as [[b s2]|] eqn:E2; [|discriminate]. inversion H; subst.
         assert (S1 : shaped (set_fs s o h fs_decr)) by (eapply same_shape_trans; [exact S | apply set_fs_shape; intros x; reflexivity]).
-        pose proof (Dmono _ _ _ _ _ E2 S1 o' g). lia.
+        assert (R1 : rc (set_fs s o h fs_decr) o h <> 1).
+        { apply andb_true_iff in Ez. destruct Ez as [Ez _]. apply Z.eqb_eq in Ez. apply Z.leb_gt in Epos.
+          assert (Rg : (h <? nf s o)%nat = true).
+          { destruct (h <? nf s o)%nat eqn:Eh; [reflexivity|]. apply Nat.ltb_ge in Eh. unfold get_fs in Epos. fold (nf s o) in Eh.
+            rewrite (nth_overflow _ _ Eh) in Epos. cbn in Epos. lia. }
+          unfold rc. rewrite get_fs_same by exact Rg. cbn [fs_decr fs_rc]. lia. }
+        pose proof (Dmono _ _ _ _ _ E2 S1 R1 o' g). lia.
       - inversion H; subst. exact E1.
     Qed.
 
@@ -632,11 +642,11 @@ Section Monotone.
 
   Lemma disable_dmono n : dmono (disable T n).
   Proof.
-    induction n as [|n IH]; intros o f s r s' H S o' g; cbn [disable] in H; [discriminate|].
+    induction n as [|n IH]; intros o f s r s' H S Hne o' g; cbn [disable] in H; [discriminate|].
     destruct (negb (fs_enabled (get_fs s o f))) eqn:En; [inversion H; subst; lia|].
-    destruct (0 <? fs_rc (get_fs s o f)) eqn:Erc; [inversion H; subst; lia|].
+    destruct (1 <? fs_rc (get_fs s o f)) eqn:Erc; [inversion H; subst; lia|].
     apply negb_false_iff in En. apply Z.ltb_ge in Erc.
-    assert (P0 : prem o f s) by (split; [exact En | exact Erc]).
+    assert (P0 : prem o f s) by (split; [exact En | unfold rc in *; lia]).
     pose proof (disable_dshape n) as Dsh. pose proof (disable_dbelow T ht s0 Hht n) as Dbe.
     pose proof (disable_dprot T o f n) as Dpr.
     set (L1 := f_self (feat T (cls_of s o) f)) in *. set (L3 := f_children (feat T (cls_of s o) f)) in *.
@@ -799,15 +809,15 @@ Section Consistency.
 
     Definition heights (s : state) : Prop := forall p c, In c (o_children (get_obj s p)) -> (ht c < ht p)%nat.
 
-    Theorem disable_keeps_excess n o f s r s' : heights s ->
+    Theorem disable_keeps_excess n o f s r s' : heights s -> rc s o f <> 1 ->
       disable T n o f s = Some (r, s') -> forall o' g, excess T s o' g <= excess T s' o' g.
-    Proof. intros Hh H. apply (disable_dmono T ht s Hh n o f s r s' H (same_shape_refl s)). Qed.
+    Proof. intros Hh Hne H. apply (disable_dmono T ht s Hh n o f s r s' H (same_shape_refl s) Hne). Qed.
 
-    Theorem disable_consistent n o f s r s' : heights s ->
+    Theorem disable_consistent n o f s r s' : heights s -> rc s o f <> 1 ->
       disable T n o f s = Some (r, s') -> consistent s -> consistent s'.
     Proof.
-      intros Hh H [C U]. split; [|eapply off_unreferenced_disable; eassumption].
-      intros o' g. pose proof (disable_keeps_excess n o f s r s' Hh H o' g). pose proof (C o' g). lia.
+      intros Hh Hne H [C U]. split; [|eapply off_unreferenced_disable; eassumption].
+      intros o' g. pose proof (disable_keeps_excess n o f s r s' Hh Hne H o' g). pose proof (C o' g). lia.
     Qed.
 
     Lemma zsum_le l F G : (forall x, In x l -> F x <= G x) -> zsum l F <= zsum l G.
